@@ -522,8 +522,8 @@ def build_part(L, part, seed, tier):
                 v |= c << (4 * i)
             return v
 
-        prefixes = [[], [1], [1, 2], [3, 3, 1]] if big else [[], [1, 2]]
-        suffixes = [[], [1]] if big else [[]]
+        prefixes = [[], [1, 2], [3, 3, 1]] if big else [[], [1, 2]]
+        suffixes = [[]]
         pairs = []
         for pre in prefixes:
             for suf in suffixes:
@@ -532,7 +532,7 @@ def build_part(L, part, seed, tier):
                         s1 = pre + ([a] + suf if a else [])
                         s2 = pre + ([b] + suf if b else [])
                         pairs.append((tuple(s1), tuple(s2)))
-        for i in range(600 if big else 120):            # longer related sequences
+        for i in range(160 if big else 80):             # longer related sequences
             n = rng.randint(3, 7)
             s1 = [rng.randint(1, 12) for _ in range(n)]
             cut = rng.randint(0, n)
@@ -541,7 +541,8 @@ def build_part(L, part, seed, tier):
                 s2 = s1[cut:]                           # substring / suffix
             pairs.append((tuple(s1), tuple(s2[:7])))
         pairs = uniq(pairs)
-        seqs = uniq([p[0] for p in pairs] + [p[1] for p in pairs] + [(a, b) for a in range(1, 13) for b in range(1, 13)])
+        seqs = uniq([p[0] for p in pairs] + [p[1] for p in pairs])                                  # for the bounded functions
+        seqs_all = uniq(seqs + [(a, b) for a in range(1, 13) for b in range(1, 13)])             # for length
 
         def counts(*lens):
             out = {0, 1}
@@ -550,12 +551,12 @@ def build_part(L, part, seed, tier):
             return sorted(out)
 
         L.table('wu2', [(a, b) for a in range(1, 13) for b in range(1, 13)])
-        L.table('w1', [(pk(s),) for s in seqs])
+        L.table('w1', [(pk(s),) for s in seqs_all])
         L.table('w2', [(pk(a), pk(b)) for a, b in pairs])
         L.table('w3', uniq([(pk(a), pk(b), n) for a, b in pairs for n in counts(len(a), len(b))]))
         L.table('w1n', uniq([(pk(s), n) for s in seqs for n in counts(len(s))]))
-        cs = (1, 2, 3, 7, 11, 12)
-        L.table('w1cn', uniq([(pk(s), c, n) for s in seqs[:: (1 if big else 3)] for c in set(cs) | set(s[:2]) for n in counts(len(s)) if n <= len(s)]))
+        cs = (1, 2, 7, 12) if big else (1, 7, 12)
+        L.table('w1cn', uniq([(pk(s), c, n) for s in seqs[::2] for c in set(cs) | set(s[:2]) for n in counts(len(s)) if n <= len(s)]))
         L.table('wcn', [(c, n) for c in range(1, 13) for n in range(0, 6)])
         for sfx in ('c8', 'u8', 'u16', 'u32', 'wc'):
             for f in ('traits_lt', 'traits_eq'):
@@ -575,7 +576,7 @@ def build_part(L, part, seed, tier):
                                ('wmemcmp_x', 'wmemcmp', 'w3'), ('wmemchr_x', 'wmemchr', 'w1cn'), ('wmemcpy_x', 'wmemcpy', 'w1n'),
                                ('wmemmove_up_x', 'wmemmove_up', 'w1n'), ('wmemmove_down_x', 'wmemmove_down', 'w1n'), ('wmemset_x', 'wmemset', 'wcn')):
             L.ob(fid, name, tab)
-        L.table('wu2s', uniq([(pk(s), c) for s in seqs[:: (1 if big else 3)] for c in set(cs) | set(s[:2])]))
+        L.table('wu2s', uniq([(pk(s), c) for s in seqs[::2] for c in set(cs) | set(s[:2])]))
     elif part == 'scen':
         st = scen_tables(rng, tier)
         L.table('sd', st)
